@@ -36,7 +36,7 @@ ASSUMPTIONS = [
     "files are compared as raw bytes when the workspace path is identical, and as decoded feather rows / text with the workspace path masked otherwise",
     "a front-end crash or error exit is an outcome and is compared like any other",
 ]
-PROBES = ["nonempty_tables", "hashseed_varied", "dirent_varied", "heap_varied", "clock_varied", "ws_sibling", "ws_otherfs", "ws_relative", "ws_symlink",
+PROBES = ["nonempty_tables", "hashseed_varied", "dirent_varied", "heap_varied", "clock_varied", "env_varied", "ws_sibling", "ws_otherfs", "ws_relative", "ws_symlink",
           "cwd_varied", "pyopt_varied", "ws_symlink_inner", "ws_named_externs", "ws_named_src", "ws_named_default", "ws_named_glob", "ws_symlink_sub", "history_other_settings",
           "history_same_project", "history_other_project", "history_crashed_run", "multi_file_project", "corpus_project",
           "generated_project", "sub_run", "sub_semantic", "taint_phase_ran", "baseline_completed", "baseline_ended_early", "not_quiet", "taint_report_written"]
@@ -124,17 +124,25 @@ SIMULATED_TIME = ("lian has no timers and, on the pinned tree, reads no clock; t
                   "time passed in those runs")
 STRATIFY = True
 WS_KINDS = ["sibling", "otherfs", "relative", "symlink", "symlink_inner", "named_externs", "named_src", "named_default", "named_glob", "symlink_sub"]
+ENV_SETS = [{"TZ": "Asia/Tokyo"}, {"TZ": "America/St_Johns", "COLUMNS": "40", "LINES": "10", "TERM": "dumb", "NO_COLOR": "1"},
+            {"LC_ALL": "C", "LANG": "C"}, {"LC_ALL": "", "LANG": "", "LC_CTYPE": "C.UTF-8"}, {"PYTHONIOENCODING": "latin-1:replace"},
+            {"_umask": "077"}, {"_umask": "000", "TERM": "xterm-256color", "FORCE_COLOR": "1"}, {"_close_stdin": "1"},
+            {"PYTHONUNBUFFERED": "1", "PYTHONFAULTHANDLER": "1"}, {"USER": "someone", "LOGNAME": "someone", "SHELL": "/bin/false"}]
 HIST_CYCLE = [{"proj": "B"}, {"proj": "A"}, {"proj": "B"}, {"proj": "B", "crash_at": 15}, {"proj": "B", "settings": "alt"}]
-DIM_CYCLE = ["ws", "hashseed", "history", "ws", "dirent", "pyopt", "ws", "heap", "cwd", "clock"]
+DIM_CYCLE = ["ws", "hashseed", "history", "ws", "dirent", "pyopt", "ws", "heap", "cwd", "clock", "env"]
 
 
 def _gen_variant(rng, baseline, forced_dim=None, forced_ws=None):
     v = dict(baseline)
-    dims = rng.sample(["hashseed", "dirent", "heap", "ws", "history", "cwd", "pyopt", "clock"], rng.choice([1, 1, 1, 2, 3]))
+    dims = rng.sample(["hashseed", "dirent", "heap", "ws", "history", "cwd", "pyopt", "clock", "env"], rng.choice([1, 1, 1, 2, 3]))
     if forced_dim and forced_dim not in dims:
         dims.append(forced_dim)         # stratification: every dimension (and every workspace location) turns up regularly
     if "pyopt" in dims:
         v["pyopt"] = rng.choice([1, 1, 2])      # the analysing interpreter started with -O / -OO
+    if "env" in dims:
+        # the rest of the process environment: time zone, terminal geometry and colours, locale spellings that still mean
+        # UTF-8, the encoding of the console streams, the umask, a closed standard input
+        v["env"] = rng.choice(ENV_SETS)
     if "clock" in dims:
         # simulated time: an hour passes between any two looks at a clock (a slow or loaded machine, a huge project), ten
         # minutes, or time stands still
@@ -200,7 +208,7 @@ def generate(rng, k):
         lang_op["quiet"] = False          # the workspace on another file system than the temporary directory: all report files
         lang_op["sub"] = "run"
     ops.append(lang_op)
-    baseline = {"op": "variant", "hashseed": 0, "dirent": "natural", "heap_pad": 0, "ws": "same", "history": [], "clock": "natural"}
+    baseline = {"op": "variant", "hashseed": 0, "dirent": "natural", "heap_pad": 0, "ws": "same", "history": [], "clock": "natural", "env": {}}
     ops.append(baseline)
     for j in range(k["n_variants"] - 1):
         if j == 0:
@@ -244,6 +252,13 @@ def _run_child(B, n, spec, hashseed, pyopt=0):
         env["PYTHONOPTIMIZE"] = str(pyopt)
     env["HOME"] = os.path.join(B, "home")
     env["MPLCONFIGDIR"] = os.path.join(B, "home", "mpl")
+    for name_, val_ in (spec.get("env") or {}).items():
+        if name_.startswith("_"):
+            continue                      # applied inside the child (umask, closed stdin)
+        if val_ == "":
+            env.pop(name_, None)
+        else:
+            env[name_] = val_
     if os.path.isdir(os.path.join(B, "tmp")):
         env["TMPDIR"] = os.path.join(B, "tmp")       # the temporary directory of the simulated machine (survives between its runs)
     os.makedirs(env["HOME"], exist_ok=True)
@@ -372,7 +387,7 @@ def execute(trace):
             def spec_for(proj, crash_at=None):
                 argv = lianrun.build_argv({"sub": k["sub"], "lang": lang, "force": True, "workspace": w_arg, "quiet": quiet,
                                            "inputs": [proj], "flags": k["flags"], "stock_settings": k.get("stock_settings")}, run_settings)
-                return {"argv": argv, "cwd": cwd, "dirent": v.get("dirent", "natural"), "heap_pad": v.get("heap_pad", 0), "clock": v.get("clock", "natural"),
+                return {"argv": argv, "cwd": cwd, "dirent": v.get("dirent", "natural"), "heap_pad": v.get("heap_pad", 0), "clock": v.get("clock", "natural"), "env": v.get("env") or {},
                         "settings": run_settings, "stock_settings": k.get("stock_settings", False), "ws": W, "mask": masks,
                         "crash_at": crash_at}
             # ---- machine history: earlier separate processes into the same workspace path
@@ -425,6 +440,9 @@ def execute(trace):
             if v.get("clock", "natural") != base_v.get("clock", "natural"):
                 dims.append("clock")
                 hit("clock_varied")
+            if (v.get("env") or {}) != (base_v.get("env") or {}):
+                dims.append("env")
+                hit("env_varied")
             if wsk != base_v.get("ws", "same"):
                 dims.append("ws")
                 hit("ws_" + wsk)
@@ -448,7 +466,7 @@ def execute(trace):
             outcome_diff = (rec["status"], rec["detail"]) != (base_rec["status"], base_rec["detail"])
             # the messages of a non-quiet run legitimately mention what was found in the workspace ("Directory created"), its
             # files are what the property is about; quiet runs print results only
-            stdio_diff = rec.get("stdio_sha") != base_rec.get("stdio_sha") and quiet
+            stdio_diff = rec.get("stdio_sha") != base_rec.get("stdio_sha") and quiet and "PYTHONIOENCODING" not in (v.get("env") or {})
             log.append(["variant", dims, rec["status"], rec["detail"], len(rec["files"]), len(diff_files), outcome_diff, stdio_diff])
             if diff_files or outcome_diff or stdio_diff:
                 violation = {"step": step, "cls": "diverge", "detail": {
@@ -500,7 +518,7 @@ def simplify(trace):
         base = ops[vidx[0]]
         for i in vidx[1:]:
             v = ops[i]
-            for dim, key in (("history", "history"), ("ws", "ws"), ("cwd", "cwd"), ("pyopt", "pyopt"), ("heap", "heap_pad"), ("clock", "clock"), ("dirent", "dirent"), ("hashseed", "hashseed")):
+            for dim, key in (("history", "history"), ("ws", "ws"), ("cwd", "cwd"), ("pyopt", "pyopt"), ("heap", "heap_pad"), ("clock", "clock"), ("env", "env"), ("dirent", "dirent"), ("hashseed", "hashseed")):
                 if v.get(key) != base.get(key):
                     yield dict(trace, ops=ops[:i] + [dict(v, **{key: base.get(key)})] + ops[i + 1:])
             if len(v.get("history", [])) > 1:
